@@ -1,9 +1,30 @@
-import TwistedModel.Http.Channel
+import TwistedProps.C21.Global
 /-!
 C21 — pipelined requests are handled one at a time; every notifyFinish Deferred fires exactly once.
 
-Proved here on the channel model (`TwistedModel/Http/Channel.lean`), for every application, state and
-history:
+Proved here on the channel model (`TwistedModel/Http/Channel.lean`), for EVERY application (`App`: what it writes
+in `requestReceived`, whether it finishes there, later or never, how many `notifyFinish()` Deferreds it takes) and
+EVERY history `ops : List Op` from a fresh connection (bytes delivered in any segmentation, the application
+finishing the request it holds, transport pause/resume, connection loss at any event boundary):
+
+* `at_most_one_request_in_flight` — (a) at every point of the outputs the requests handed over are at most one
+  ahead of the `requestDone`s; `requestReceived` only happens when every earlier request is done; `requestDone(k)`
+  is for the request in flight, which is number `k`;
+* `responses_in_request_order_not_interleaved` — (b) the application's bytes for request `k` are written only while
+  `k` is the request in flight, the channel's own bytes (`100 Continue`, `400 Bad Request`) only while none is;
+  `written_is_concatenation_of_responses` — hence the bytes on the wire are
+  `own 0 ++ resp 0 ++ own 1 ++ resp 1 ++ …` (per-request responses in request order, the channel's own lines between);
+* `notifyFinish_fires_exactly_once` — (c) for every request `k` handed over, its Deferreds fire in ONE batch of all
+  of them: with `None` iff `requestDone(k)` ran (necessarily before the loss), else with a failure iff the
+  connection was lost, else not yet (`pending_while_in_flight`: they are all still held);
+  `notifyFinish_result_matches_order` — a firing with `None` comes after `requestDone(k)`, a firing with a failure
+  while `k` is still the request in flight;
+  `no_firing_without_request` — nothing fires for a request number never handed over.
+
+They follow from an invariant (`TwistedProps/C21/`: `T` over the outputs — the automaton `alt` and the per-request
+accounting `expected` — and `J` tying it to `Chan.nreq`, `inflight`, `pendingNotify`, `lineMode`, `handling`) kept by
+`allContentReceived`, `lineReceived`, `rawDataReceived`, every iteration of the receive loop (`drain_J`) and every
+event (`step_good`), hence true after any history (`reach_good`).  The local facts proved earlier are its step cases:
 
 * `nothing_after_loss`, `nothing_after_loss_run` — once `connectionLost` has run, no event (delivery,
   finish, pause, resume, a second loss) changes anything: nothing more is written, no Deferred fires again;
@@ -13,18 +34,15 @@ history:
   of the events before it followed by the loss (this is "loss at every event boundary": the boundary is
   the length of the prefix, arbitrary);
 * `finish_fires_pending` — when the application finishes the request it holds, the response bytes come
-  first, then whatever the replay of buffered pipelined data does, and the request's pending Deferreds fire
-  with `None` last, and `requestDone` handed nothing to the application before the response was complete;
+  first, then `requestDone`, then whatever the replay of buffered pipelined data does, and the request's pending
+  Deferreds fire with `None` last;
 * `finish_without_request` — a finish with no request in flight does nothing (a second finish, or one
   after the response already completed).
 
-PARTIAL.  The global statements of the property — for every history at most one request is in flight,
-the bytes written are the concatenation of the per-request responses in request order, and the number of
-firings per Deferred is exactly one — need an invariant over `drain` tying `Chan.inflight`,
-`Chan.handling` and the outputs together (`inflight.isSome → handling`, `req` outputs alternate with
-`done` outputs).  That invariant is NOT proved here; it is checked on every run on the real code by the
-oracle of `harness/corr/C21.py` (event log of the real channel) and the tie compares the order of events
-of model and code.  Hence `finish_fires_pending` and `loss_fires_pending` are local (one event) facts.
+Modelling conventions the statements rest on (tied to the real code by `harness/corr/C21.py`, event order
+included): the Deferreds of one request are a count, and `Out.notify k n ok` is the `for d in notifications` loop
+firing all `n` of them with the same result (one batch = each of them once); `step` delivers nothing after
+`loseConnection`/`connectionLost` and lets the application finish only a request it still holds on a live connection.
 -/
 namespace TwistedProps.C21
 open Twisted.Http.Chunked hiding St feed init
@@ -86,9 +104,9 @@ theorem feed_outs (app : App) (s : St) (data : Bytes) :
   unfold Twisted.Http.Channel.feed feedTail
   split <;> simp
 
-/-- **finishing fires what is pending, with `None`, after the response and after the replay of buffered
-    data** (one event; see the file header for what is missing) -/
-theorem finish_fires_pending_partial (app : App) (s : St) (req : Req) (h : s.chan.inflight = some req)
+/-- **finishing fires what is pending, with `None`, after the response, `requestDone` and the replay of buffered
+    data** (the step case of `notifyFinish_fires_exactly_once`) -/
+theorem finish_fires_pending (app : App) (s : St) (req : Req) (h : s.chan.inflight = some req)
     (hf : app.finishable (s.chan.nreq - 1) req = true) :
     ∃ mid, (finishLater app s).outs =
       s.outs ++ (if (app.onFinish (s.chan.nreq - 1) req).isEmpty then [] else [Out.appWrite (s.chan.nreq - 1) (app.onFinish (s.chan.nreq - 1) req)])
@@ -123,6 +141,173 @@ example : (runOps exApp init [.data exReq, .lose, .finish, .data exReq, .lose]).
       (runOps exApp init [.data exReq]).outs ++ [.notify 0 2 false] ∧
     (runOps exApp init [.data exReq, .finish]).outs =
       (runOps exApp init [.data exReq]).outs ++ [.appWrite 0 [72], .done 0, .tpause false, .notify 0 2 true] := by
+  decide +kernel
+
+/-! ### the global statements: any application, any history -/
+
+/-- the outputs of any history are accepted by the one-request-at-a-time automaton -/
+theorem history_alt (app : App) (ops : List Op) :
+    alt 0 false (runOps app init ops).outs =
+      some ((runOps app init ops).chan.nreq, (runOps app init ops).chan.inflight.isSome) :=
+  (reach_good app ops).t.alt
+
+/-- **(a) at most one request is in flight.**  In the outputs of ANY history (deliveries in any segmentation,
+    finishes, pause/resume, loss anywhere), at every point the requests handed to the application are at most one
+    ahead of the `requestDone`s; `requestReceived` happens only when every earlier request is done; and
+    `requestDone(k)` is for the request in flight, which is number `k`. -/
+theorem at_most_one_request_in_flight (app : App) (ops : List Op) (pre suf : List Out) :
+    ((runOps app init ops).outs = pre ++ suf → nDone pre ≤ nReq pre ∧ nReq pre ≤ nDone pre + 1) ∧
+    (∀ r, (runOps app init ops).outs = pre ++ .req r :: suf → nReq pre = nDone pre) ∧
+    (∀ k, (runOps app init ops).outs = pre ++ .done k :: suf → nReq pre = k + 1 ∧ nDone pre = k) := by
+  have ha := history_alt app ops
+  refine ⟨fun h => ?_, fun r h => ?_, fun k h => ?_⟩
+  · rw [h, alt_append] at ha
+    cases hp : alt 0 false pre with
+    | none => rw [hp] at ha; simp at ha
+    | some g =>
+      have := alt_counts _ _ _ _ _ hp
+      obtain ⟨n, f⟩ := g
+      cases f <;> simp [b2n] at this <;> omega
+  · rw [h] at ha
+    obtain ⟨f, _, h2, h3⟩ := alt_split _ _ _ _ ha
+    cases f
+    · simpa [b2n] using h2
+    · simp [alt] at h3
+  · rw [h] at ha
+    obtain ⟨f, _, h2, h3⟩ := alt_split _ _ _ _ ha
+    cases f
+    · simp [alt] at h3
+    · simp [alt] at h3
+      simp [b2n] at h2
+      omega
+
+/-- **(b) responses are not interleaved and come in request order.**  In the outputs of any history, the
+    application writes for request `k` only while `k` is the request in flight (so between `requestReceived` of
+    `k` and `requestDone(k)`, and after all earlier requests are done), and the channel writes on its own
+    account (`100 Continue`, `400 Bad Request`) only while no request is in flight. -/
+theorem responses_in_request_order_not_interleaved (app : App) (ops : List Op) (pre suf : List Out) :
+    (∀ k w, (runOps app init ops).outs = pre ++ .appWrite k w :: suf → nReq pre = k + 1 ∧ nDone pre = k) ∧
+    (∀ w, (runOps app init ops).outs = pre ++ .write w :: suf → nReq pre = nDone pre) := by
+  have ha := history_alt app ops
+  refine ⟨fun k w h => ?_, fun w h => ?_⟩
+  · rw [h] at ha
+    obtain ⟨f, _, h2, h3⟩ := alt_split _ _ _ _ ha
+    cases f
+    · simp [alt] at h3
+    · simp [alt] at h3
+      simp [b2n] at h2
+      omega
+  · rw [h] at ha
+    obtain ⟨f, _, h2, h3⟩ := alt_split _ _ _ _ ha
+    cases f
+    · simpa [b2n] using h2
+    · simp [alt] at h3
+
+/-- **(c) every notifyFinish Deferred fires exactly once.**  After any history, for every request `k` handed to
+    the application (`r`), the firings of its Deferreds are: ONE batch of all the `app.notifies k r` Deferreds it
+    took, with `None`, if `requestDone(k)` ran (the response finished — necessarily before the loss, after
+    which nothing happens: `nothing_after_loss`); else ONE batch of all of them with a failure if the connection
+    was lost; else none yet. -/
+theorem notifyFinish_fires_exactly_once (app : App) (ops : List Op) (k : Nat) (r : Req)
+    (hr : (delivered (runOps app init ops).outs)[k]? = some r) :
+    notifs k (runOps app init ops).outs =
+      if Out.done k ∈ (runOps app init ops).outs then notifyOuts k (app.notifies k r) true
+      else if (runOps app init ops).lost = true then notifyOuts k (app.notifies k r) false
+      else [] := by
+  have g := reach_good app ops
+  have hk : k < nReq (runOps app init ops).outs := by
+    unfold nReq
+    exact (List.getElem?_eq_some_iff.mp hr).1
+  have hnr := g.t.nreq
+  have hnd := g.t.ndone
+  have hnf : nfOf app k (runOps app init ops).outs = app.notifies k r := by
+    unfold nfOf; rw [hr]
+  have hmem := done_mem_iff _ _ g.t.alt k
+  rw [g.t.acc k]
+  unfold expected fin
+  rw [hnf]
+  generalize runOps app init ops = s at *
+  cases hf : s.chan.inflight.isSome <;> rw [hf] at hnd <;> simp only [b2n] at hnd ⊢ <;> grind
+
+/-- **(c), order.**  In the outputs of any history, Deferreds of request `k` fire with `None` only after
+    `requestDone(k)` (its response has finished), and with a failure only while `k` is the request in flight
+    (handed over, not done). -/
+theorem notifyFinish_result_matches_order (app : App) (ops : List Op) (pre suf : List Out) (k n : Nat) :
+    ((runOps app init ops).outs = pre ++ .notify k n true :: suf → Out.done k ∈ pre) ∧
+    ((runOps app init ops).outs = pre ++ .notify k n false :: suf → nReq pre = k + 1 ∧ nDone pre = k) := by
+  have ha := history_alt app ops
+  refine ⟨fun h => ?_, fun h => ?_⟩
+  · rw [h] at ha
+    obtain ⟨f, h1, h2, h3⟩ := alt_split _ _ _ _ ha
+    rw [done_mem_iff _ _ h1 k]
+    cases f <;> simp [alt, b2n] at h3 h2 <;> omega
+  · rw [h] at ha
+    obtain ⟨f, h1, h2, h3⟩ := alt_split _ _ _ _ ha
+    cases f <;> simp [alt, b2n] at h3 h2
+    omega
+
+/-- no Deferred fires for a request that was never handed over -/
+theorem no_firing_without_request (app : App) (ops : List Op) (k : Nat)
+    (hr : (delivered (runOps app init ops).outs)[k]? = none) : notifs k (runOps app init ops).outs = [] := by
+  have g := reach_good app ops
+  have hk : nReq (runOps app init ops).outs ≤ k := by
+    unfold nReq
+    exact List.getElem?_eq_none_iff.mp hr
+  have hnr := g.t.nreq
+  have hnd := g.t.ndone
+  rw [g.t.acc k]
+  unfold expected fin
+  cases hf : (runOps app init ops).chan.inflight.isSome <;> rw [hf] at hnd <;> simp only [b2n] at hnd ⊢ <;> grind
+
+/-- while a request is in flight and the connection is up, its Deferreds are all still held by the request -/
+theorem pending_while_in_flight (app : App) (ops : List Op) (r : Req)
+    (hi : (runOps app init ops).chan.inflight = some r) (hl : (runOps app init ops).lost = false) :
+    (delivered (runOps app init ops).outs)[(runOps app init ops).chan.nreq - 1]? = some r → 
+    (runOps app init ops).chan.pendingNotify = app.notifies ((runOps app init ops).chan.nreq - 1) r := by
+  intro hr
+  have g := reach_good app ops
+  rw [g.pend (by rw [hi]; rfl) hl]
+  unfold nfOf; rw [hr]
+
+/-- **(b), as an equation.**  The bytes on the wire after any history are, request by request in request order,
+    the channel's own lines written while `k` requests had been handed over (`own 0 k`: `100 Continue` for request
+    `k`, a final `400 Bad Request`) followed by the whole response of request `k` (`resp k`: everything the
+    application wrote for it): `own 0 ++ resp 0 ++ own 1 ++ resp 1 ++ … ++ own n ++ resp n`, `n` = requests handed over
+    (`resp n` is empty). -/
+theorem written_is_concatenation_of_responses (app : App) (ops : List Op) :
+    written (runOps app init ops).outs =
+      catN (fun k => own 0 k (runOps app init ops).outs ++ resp k (runOps app init ops).outs) 0
+        (nReq (runOps app init ops).outs + 1) := by
+  have g := reach_good app ops
+  have := written_alt 0 false _ _ _ g.t.alt
+  rw [this, g.t.nreq]
+  simp
+
+/-! ### non-vacuity of the global statements: two pipelined requests in one delivery; the first is finished later
+(1 Deferred), the second inside `requestReceived` (2 Deferreds); a third is in flight when the connection is lost -/
+
+def exApp2 : App where
+  onRequest := fun k _ => if k = 1 then ([75], true) else ([], false)
+  notifies := fun k _ => k + 1
+  finishable := fun _ _ => true
+  onFinish := fun _ _ => [72]
+
+/-- `GET / HTTP/1.1\r\nExpect: 100-continue\r\n\r\n` -/
+def exReq100 : Bytes := [71, 69, 84, 32, 47, 32, 72, 84, 84, 80, 47, 49, 46, 49, 13, 10,
+  69, 120, 112, 101, 99, 116, 58, 32, 49, 48, 48, 45, 99, 111, 110, 116, 105, 110, 117, 101, 13, 10, 13, 10]
+
+def exHist : List Op := [.data (exReq ++ exReq.take 7), .pause, .data (exReq.drop 7), .finish, .resume, .data exReq100, .lose, .finish]
+
+example :
+    let o := (runOps exApp2 init exHist).outs
+    nReq o = 3 ∧ nDone o = 2 ∧ (runOps exApp2 init exHist).lost = true ∧
+    written o = [72, 75] ++ continueBytes ∧
+    resp 0 o = [72] ∧ resp 1 o = [75] ∧ resp 2 o = [] ∧ own 0 2 o = continueBytes ∧ own 0 0 o = [] ∧
+    notifs 0 o = [.notify 0 1 true] ∧ notifs 1 o = [.notify 1 2 true] ∧ notifs 2 o = [.notify 2 3 false] ∧
+    Out.done 1 ∈ o ∧ Out.done 2 ∉ o ∧
+    (o.filter fun x => isReq x || isDone x || isNotifyOf 0 x || isNotifyOf 1 x || isNotifyOf 2 x).map
+        (fun x => match x with | .req _ => 0 | .done k => 10 + k | .notify k _ _ => 20 + k | _ => 99) =
+      [0, 10, 0, 11, 21, 20, 0, 22] := by
   decide +kernel
 
 end TwistedProps.C21
